@@ -1382,8 +1382,8 @@ func (x *Unit) bodySpecCtx(st *State, n ast.Node) *specCtx {
 // havocGhosts forgets every declared ghost global (event counters, ghost maps); the clock only moves forward.
 func (x *Unit) havocGhosts(st *State) {
 	for _, name := range sortedKeys(x.eng.ghostDecls) {
-		if name == "now" {
-			continue
+		if name == "now" || name == "lockReleased" {
+			continue // lockReleased: what this very call has released, nothing a callee changes
 		}
 		g := x.ghostGet(st, name)
 		st.ghost[name] = Val{x.fresh("G_"+name, g.Sort), g.Typ}
